@@ -1318,6 +1318,8 @@ class _iterinfo(object):
             # This will cross the year boundary, if necessary.
             if self.wdaymask[i] == self.rrule._wkst:
                 break
+            if self.yearordinal + i > datetime.date.max.toordinal():
+                break       # the week that contains 9999-12-31 ends there
         return dset, start, i
 
     def ddayset(self, year, month, day):
